@@ -801,8 +801,38 @@ impl GraphWorld {
             }
             None
         };
+        // Transient cone: a bind that was in the cone (at the start or at the end) and whose closure ran in this round adopted
+        // the outer nodes its chosen alternative refers to; they were needed from that moment on, even if a *later* step of the
+        // same round (another bind switching away) released the whole branch again, so that they are in neither of the two
+        // cones the property names. A height-ordered engine cannot know at that moment; like the nodes created during the
+        // round (DESIGN §8) they are attributed to the bind. (False alarm found on the unchanged tree by `shapes/binds-started`
+        // before that family was registered.)
+        let mut transient_roots: Vec<Key> = vec![];
+        for (bk, runs) in bind_runs.iter() {
+            let in_cone = {
+                let mut cur: &Key = bk;
+                let mut hit = out.cone_start.contains(cur) || out.cone_end.contains(cur);
+                while let (false, Some((b, _))) = (hit, cur.scope()) {
+                    hit = out.cone_start.contains(b) || out.cone_end.contains(b);
+                    cur = b;
+                }
+                hit
+            };
+            if !in_cone {
+                continue;
+            }
+            if let Some(RKind::Bind { even, odd, .. }) = m.nodes.get(bk).map(|n| n.kind.clone()) {
+                for (_g, arg) in runs.iter() {
+                    let spec = if parity_even(arg) { &even } else { &odd };
+                    let mut refs = vec![];
+                    spec.refs(&mut refs);
+                    transient_roots.extend(refs.into_iter().map(Key::Outer));
+                }
+            }
+        }
+        let transient: BTreeSet<Key> = if transient_roots.is_empty() { BTreeSet::new() } else { m.reach(&transient_roots) };
         let allowed_cone = |k: &Key| -> bool {
-            if out.cone_start.contains(k) || out.cone_end.contains(k) {
+            if out.cone_start.contains(k) || out.cone_end.contains(k) || transient.contains(k) {
                 return true;
             }
             // nodes created during this round by a bind that was needed (DESIGN §8)
